@@ -93,5 +93,11 @@ theorem l_append_if_msg (b : Bool) : Gen.ReplyNet.l_append_if_msg b = b := rfl
 /-- `DNSCache.async_get_unique`: the store is looked up under the record's lower-cased name (`key`), then by identity -/
 theorem pin_cache_unique_store : Gen.ReplyNet.src_cache_unique_store = "self.cache.get(entry.key)" := rfl
 theorem pin_cache_unique_ret : Gen.ReplyNet.src_cache_unique_ret = "store.get(entry)" := rfl
+/-- the state the duplicate guard compares with is assigned exactly once each, after the guard let the datagram through (the model's
+`Host.decide` updates `lastData` / `lastTime` on that path only): a dropped repeat does not restart the one-second window -/
+theorem pin_l_last_time : Gen.ReplyNet.src_l_last_time = "now" := rfl
+theorem pin_l_last_time_once : Gen.ReplyNet.src_l_last_time_again = "<not found>" := rfl
+theorem pin_l_data : Gen.ReplyNet.src_l_data = "data" := rfl
+theorem pin_l_data_once : Gen.ReplyNet.src_l_data_again = "<not found>" := rfl
 
 end Zc.Reply.Net.GenFacts
